@@ -150,6 +150,11 @@ sb_error_t sb_yaw_control_init_from_binary_file_in_memory(
 
 sb_error_t sb_i_yaw_control_init_from_bytes(sb_yaw_control_t* ctrl, uint8_t* buf, size_t nbytes, sb_bool_t owned)
 {
+    /* the header (flags and yaw offset) takes 3 bytes */
+    if (nbytes < 3) {
+        return SB_EPARSE;
+    }
+
     if (owned) {
         SB_CHECK(sb_buffer_init_from_bytes(&ctrl->buffer, buf, nbytes));
     } else {
@@ -475,9 +480,10 @@ static sb_error_t sb_i_yaw_player_build_current_setpoint(
     data->start_yaw_ddeg = start_yaw_ddeg;
     data->start_yaw_deg = data->start_yaw_ddeg / 10.0f;
 
-    if (offset >= buffer_length) {
-        /* We are beyond the end of the buffer, indicating that there are
-         * no more setpoints in the buffer; we keep last yaw forever */
+    if (offset >= buffer_length || buffer_length - offset < SIZE_OF_DELTA) {
+        /* We are beyond the end of the buffer (or what is left is not a whole
+         * yaw delta, which num_deltas does not count either), indicating that
+         * there are no more setpoints in the buffer; we keep last yaw forever */
         data->duration_msec = UINT32_MAX - data->start_time_msec;
         data->duration_sec = INFINITY;
         data->end_time_msec = UINT32_MAX;
